@@ -406,5 +406,36 @@ func compUniverses(fields []string) []universe {
 		}
 		return strings.Join(parts, ",")
 	}
-	return []universe{{name: "comp", next: next, probe: probe}, {name: "comp-cluster", next: clusterNext, probe: probe}}
+	// mutations: one base tuple, each key differing from it in one byte at a position drawn uniformly over the whole
+	// encoded key – branch points at every depth, among them deep inside runs longer than the inline limit
+	mutateNext := func(r *rand.Rand) string {
+		pin(r)
+		parts := append([]string{}, pinned[0]...)
+		for m := 0; m < 1+r.Intn(2); m++ {
+			i := r.Intn(len(fields))
+			switch f := fields[i]; f {
+			case "s":
+				b := unhex(parts[i])
+				if len(b) > 0 {
+					b[r.Intn(len(b))] = pick(r, []byte("pqr"))
+				}
+				if r.Intn(4) == 0 {
+					b = append(b, pick(r, []byte("ab")))
+				}
+				parts[i] = hexLit(b)
+			case "f32", "f64":
+				// keep the sign and exponent (no NaN), vary one mantissa byte
+				w := widthOf(f)
+				pos := r.Intn(w/8 - 2)
+				parts[i] = canonNum(f, bitsLit(parseBits(parts[i], w)^uint64(1+r.Intn(255))<<uint(8*pos), w))
+			default:
+				w := widthOf(f)
+				pos := r.Intn(w / 8)
+				parts[i] = bitsLit(parseBits(parts[i], w)^uint64(1+r.Intn(3))<<uint(8*pos), w)
+			}
+		}
+		return strings.Join(parts, ",")
+	}
+	return []universe{{name: "comp", next: next, probe: probe}, {name: "comp-cluster", next: clusterNext, probe: probe},
+		{name: "comp-mutate", next: mutateNext, probe: probe}}
 }
